@@ -378,13 +378,16 @@ CLAIMED = {
         technique="Coq proof (scan = per-line classification before FASTA, peek prefix, shared-list flow incl. refutation of the rebinding variant) + exhaustive small-scope differential correspondence",
         design="4 (C14)"),
     "C13": dict(
-        text="Coq theorems (Properties/C13.v, 8 statements, closed under the global context) about the model of "
+        text="Coq theorems (Properties/C13.v, 10 statements, closed under the global context) about the model of "
              "_FeatureIterator.peek and _BaseIterator.__iter__: peek(n) returns the first n+1 items and leaves the contents "
              "unchanged for every n (0 and beyond the length included), for lists and one-shot iterators alike, also when peeked "
              "twice (DataIterator handed to create_db); list and one-shot sources are indistinguishable afterwards; for ANY "
              "(stateful) transform the final state is the fold over all items in order - exactly one call each - and the output "
-             "is exactly the non-false results in order; inspect()'s count is min(limit, n). The equivalence of the seven input "
-             "forms themselves (path, gzip, string, list, generators, iter/map/chain objects, DataIterator, FeatureDB), of "
+             "is exactly the non-false results in order; inspect()'s count is min(limit, n); for every file of C01's domain the "
+             "path form (peek, vote, second pass with the chosen dialect: Model/File.v import_model) yields the same dialect and "
+             "the same features as the ready-made-objects form (objects_model: vote over the objects' own dialects), list or "
+             "one-shot (C13_path_equals_objects, C13_oneshot_equals_list). The equivalence of the other input "
+             "forms (path, gzip, string, list, generators, iter/map/chain objects, DataIterator, FeatureDB), of "
              "DataIterator iteration and create_db, and Python truthiness of transform results is decided by the correspondence: "
              "11 forms x checklines 0..n+2 x 6 transforms with call counters (~670 cases, each running all forms; half of the "
              "annotations mix lines that end their attribute column with ';' and lines that do not, ready-made Feature objects "
